@@ -83,3 +83,38 @@ func genPeeringLocks(sb *strings.Builder) error {
 	fmt.Fprintf(sb, "Definition peering_addlink_locked : bool := %v.\nDefinition peering_removelink_locked : bool := %v.\n\n", locked["AddLink"], locked["RemoveLink"])
 	return nil
 }
+
+func init() {
+	genSections = append(genSections, genSessionLocks)
+}
+
+// genSessionLocks: the replay handlers are one per session and serialised — Session.Signing and
+// Session.Encryption create their object under the session lock (whole body), and the Check
+// methods of both sequence handlers run under the handler lock (whole body).
+func genSessionLocks(sb *strings.Builder) error {
+	fset := token.NewFileSet()
+	locked := map[string]bool{}
+	for _, file := range []string{"/repo/state/session.go", "/repo/state/session_signing.go", "/repo/state/session_encryption.go"} {
+		f, err := parser.ParseFile(fset, file, nil, 0)
+		if err != nil {
+			return err
+		}
+		for _, d := range f.Decls {
+			fd, ok := d.(*ast.FuncDecl)
+			if !ok || fd.Recv == nil {
+				continue
+			}
+			recv := ""
+			if st, ok := fd.Recv.List[0].Type.(*ast.StarExpr); ok {
+				if id, ok := st.X.(*ast.Ident); ok {
+					recv = id.Name
+				}
+			}
+			locked[recv+"."+fd.Name.Name] = lockedWhole(fd)
+		}
+	}
+	sb.WriteString("(* one replay handler per session, serialised: lock held for the whole body (go/ast) *)\n")
+	fmt.Fprintf(sb, "Definition session_signing_locked : bool := %v.\nDefinition session_encryption_locked : bool := %v.\n", locked["Session.Signing"], locked["Session.Encryption"])
+	fmt.Fprintf(sb, "Definition seq_check_locked : bool := %v.\nDefinition timeseq_check_locked : bool := %v.\n\n", locked["SequenceHandler.Check"], locked["TimeSequenceHandler.Check"])
+	return nil
+}
